@@ -56,7 +56,10 @@ def conflict(pre, r):
     return compat(pre[0], r[0])
 
 
-def gen_app(rng, ids, depth=0, max_routes=6, fangs=True, local=True, mounts=True, nparams_left=2):
+def gen_app(rng, ids, depth=0, max_routes=6, fangs=True, local=True, mounts=True, nparams_left=2, free=False):
+    """free=False: the side condition of C04 holds (nobody else registers under a mount prefix, mount prefixes do not disturb each other);
+       free=True : no side condition — the parent also registers routes under its mounts' prefixes (the very routes of the mounted application under other
+                   methods, and extensions of them), mounts may share prefixes; route/method pairs are kept distinct (`dedupe`)"""
     app = {'fangs': [], 'items': []}
     if fangs and rng.random() < 0.6:
         app['fangs'] = [ids.fang() for _ in range(rng.choice([3, 4, 5, 6, 7, 8] if rng.random() < 0.35 else [1, 1, 2]))]
@@ -68,9 +71,9 @@ def gen_app(rng, ids, depth=0, max_routes=6, fangs=True, local=True, mounts=True
             mp = pat(m)
             np_ = sum(1 for s in mp if s is None)
             if np_ > nparams_left: continue
-            if any(conflict(mp, o) or conflict(o, mp) for o in mount_pre): continue
+            if not free and any(conflict(mp, o) or conflict(o, mp) for o in mount_pre): continue
             mount_pre.append(mp)
-            app['items'].append({'mount': m, 'app': gen_app(rng, ids, depth + 1, max_routes=4, fangs=fangs, local=local, mounts=mounts, nparams_left=nparams_left - np_)})
+            app['items'].append({'mount': m, 'app': gen_app(rng, ids, depth + 1, max_routes=4, fangs=fangs, local=local, mounts=mounts, nparams_left=nparams_left - np_, free=free)})
     seen = set()
     for _ in range(rng.choice([1, 2, 3, max_routes])):
         r = lit(rng, depth_max=3, param_rate=0.3 if nparams_left > 0 else 0)
@@ -78,14 +81,44 @@ def gen_app(rng, ids, depth=0, max_routes=6, fangs=True, local=True, mounts=True
         if sum(1 for s in rp if s is None) > nparams_left: continue
         key = tuple('*' if s is None else s for s in rp)
         if key in seen: continue
-        if any(conflict(mp, rp) for mp in mount_pre): continue          # the property's side condition: nobody else registers under a mount prefix
+        if not free and any(conflict(mp, rp) for mp in mount_pre): continue          # the property's side condition: nobody else registers under a mount prefix
         seen.add(key)
         ms = rng.sample(METHODS, rng.choice([1, 1, 2, 5]))
         item = {'route': r, 'methods': ms, 'h': ids.handler(), 'local': []}
         if local and rng.random() < 0.25: item['local'] = [ids.fang() for _ in range(rng.choice([1, 2, 3]))]
         app['items'].append(item)
+    if free:
+        for it in [it for it in app['items'] if 'mount' in it]:
+            sub = [r for r in it['app']['items'] if 'route' in r]
+            for _ in range(rng.choice([0, 1, 1, 2])):
+                if not sub: break
+                r = rng.choice(sub)
+                full = it['mount'].rstrip('/') + ('' if r['route'] == '/' else r['route'])
+                k = rng.random()
+                if k < 0.3: full = full + '/' + rng.choice(VOCAB)                                     # below a route of the mounted application
+                elif k < 0.45 and r['route'] != '/': full = full.rsplit('/', 1)[0] or '/'            # above it, still at or under the mount point
+                item = {'route': full, 'methods': rng.sample(METHODS, rng.choice([1, 2, 3])), 'h': ids.handler(), 'local': []}
+                if local and rng.random() < 0.25: item['local'] = [ids.fang() for _ in range(rng.choice([1, 2]))]
+                app['items'].append(item)
     rng.shuffle(app['items'])
+    if free and depth == 0: dedupe(app)
     return app
+
+
+def dedupe(app, prefix=(), seen=None):
+    """keep route/method pairs distinct over the whole tree (a second handler for one pair is refused at start-up)"""
+    seen = set() if seen is None else seen
+    keep = []
+    for it in app['items']:
+        if 'mount' in it:
+            dedupe(it['app'], prefix + tuple(pat(it['mount'])), seen)
+            keep.append(it)
+        else:
+            key = tuple('*' if s is None else s for s in list(prefix) + pat(it['route']))
+            it['methods'] = [m for m in it['methods'] if (key, m) not in seen]
+            seen.update((key, m) for m in it['methods'])
+            if it['methods']: keep.append(it)
+    app['items'] = keep
 
 
 def flat_routes(app, prefix=()):
@@ -94,6 +127,17 @@ def flat_routes(app, prefix=()):
     for it in app['items']:
         if 'mount' in it: out += flat_routes(it['app'], prefix + tuple(pat(it['mount'])))
         else: out.append((list(prefix) + pat(it['route']), it['methods'], it['h'], it.get('local', [])))
+    return out
+
+
+def mount_prefixes(app, prefix=()):
+    """the composed prefix patterns of every mount of the tree"""
+    out = []
+    for it in app['items']:
+        if 'mount' in it:
+            p = prefix + tuple(pat(it['mount']))
+            out.append(list(p))
+            out += mount_prefixes(it['app'], p)
     return out
 
 
